@@ -29,8 +29,9 @@ def setup(x64: bool | None = None):
     os.environ.setdefault("OPENBLAS_NUM_THREADS", "1")
     os.environ["JAX_ENABLE_X64"] = "1" if x64 else "0"
     # The checks always exercise /repo's working tree.
-    if "/repo" not in sys.path:
-        sys.path.insert(0, "/repo")
+    repo = os.environ.get("MC_REPO", "/repo")  # developer override: a scratch worktree holding a seeded change
+    if repo not in sys.path:
+        sys.path.insert(0, repo)
     warnings.filterwarnings("ignore")
     import jax
 
